@@ -24,20 +24,20 @@ func (c19) Rule() string {
 	return "the five operation x range matrices of upstream's test/complex/tree_concurrency_test.go (edit-edit 9x10x10, split-split " +
 		"5x8x8, split-edit 9x2x8, style-style 4x6x6, edit-style 7x6x2 = 1592 pairs; that file needs MongoDB and build tags and " +
 		"t.Skip()s a diverging pair) are ported literally and enumerated completely, each pair in BOTH orders in which the two " +
-		"changes can reach the log. Per case: two Documents start from the matrix's initial tree, each applies its operation " +
+		"changes can reach the log with BOTH assignments of the greater actor id, and with the initial tree written by the first editor or by a third client (8 cases per pair). Per case: two Documents start from the matrix's initial tree, each applies its operation " +
 		"concurrently, the changes cross the wire codec in log order; a third, passive replica is built the way the server builds " +
-		"one - the log replayed into an internal document, encoded with SnapshotToBytes and decoded - and a fourth applies the log " +
-		"change by change. Oracle: no Update or apply fails or panics; ToXML() of both editors, of the snapshot-fed and of the " +
+		"one - the log replayed into an internal document, encoded with SnapshotToBytes and decoded - a fourth applies the log " +
+		"change by change, and a fifth loads a snapshot taken BETWEEN the two changes and then applies the second one. Oracle: no Update or apply fails or panics; ToXML() of both editors, of the snapshot-fed and of the " +
 		"change-fed replica are identical; Root() (the copy shown to users) marshals exactly like the document on every replica. " +
 		"A pair that fails is reported under its name (matrix/range(op1,op2)/order)."
 }
 func (c19) Assumptions() []string {
 	return []string{"in-process exchange through the protobuf codec instead of the RPC server (no MongoDB needed)", "one operation per client, as in upstream's matrices"}
 }
-func (c19) NumCases(string, int64) int { return len(c19Pairs()) * 2 }
+func (c19) NumCases(string, int64) int { return len(c19Pairs()) * 8 }
 func (c19) Exhaustive(string) bool     { return true }
 func (c19) Floors(string) []runner.Floor {
-	return []runner.Floor{{Stat: "pairs_run", Min: 3000}, {Stat: "replicas_compared", Min: 12000}}
+	return []runner.Floor{{Stat: "pairs_run", Min: 12000}, {Stat: "replicas_compared", Min: 40000}}
 }
 
 type c19Worker struct{}
@@ -384,7 +384,11 @@ func c19Apply(d *document.Document, cs []*change.Change, seq int64) (err error) 
 }
 
 func (w *c19Worker) runPair(res *runner.CaseResult, p c19Pair, order int) {
-	name := fmt.Sprintf("%s/order-%s-first", p.name(), []string{"A", "B"}[order])
+	// order: bit 0 = whose change reaches the log first, bit 1 = which editor has the greater actor id
+	swap := order&2 != 0
+	third := order&4 != 0 // the initial tree was written by a third client, not by an editor
+	name := fmt.Sprintf("%s/%s-first/%s/%s", p.name(), []string{"op1", "op2"}[order&1], map[bool]string{false: "op1-has-smaller-actor-id", true: "op1-has-greater-actor-id"}[swap],
+		map[bool]string{false: "tree-written-by-op1's-client", true: "tree-written-by-a-third-client"}[third])
 	replay := map[string]any{"pair": p.name(), "order": order}
 	viol := func(kind, detail string) {
 		res.Violate(kind, name+": "+detail, "pair:"+name, replay)
@@ -393,9 +397,19 @@ func (w *c19Worker) runPair(res *runner.CaseResult, p c19Pair, order int) {
 	d1, d2 := document.New(k), document.New(k)
 	d1.SetActor(actorA)
 	d2.SetActor(actorB)
+	if swap {
+		d1.SetActor(actorB)
+		d2.SetActor(actorA)
+	}
 	d1.SetStatus(document.StatusAttached)
 	d2.SetStatus(document.StatusAttached)
-	if err := d1.Update(func(root *yjson.Object, _ *presence.Presence) error {
+	author := d1
+	if third {
+		author = document.New(k)
+		author.SetActor(c15Actors[2])
+		author.SetStatus(document.StatusAttached)
+	}
+	if err := author.Update(func(root *yjson.Object, _ *presence.Presence) error {
 		root.SetNewTree("t", p.m.initial)
 		return nil
 	}); err != nil {
@@ -416,7 +430,7 @@ func (w *c19Worker) runPair(res *runner.CaseResult, p c19Pair, order int) {
 		_ = d.ApplyChangePack(change.NewPack(k, change.NewCheckpoint(int64(len(log)), pack.Checkpoint.ClientSeq), nil, nil, nil))
 		return cs, nil
 	}
-	base, err := push(d1)
+	base, err := push(author)
 	if err != nil {
 		viol("setup-failed", err.Error())
 		return
@@ -424,6 +438,13 @@ func (w *c19Worker) runPair(res *runner.CaseResult, p c19Pair, order int) {
 	if err := c19Apply(d2, base, 1); err != nil {
 		viol("setup-failed", err.Error())
 		return
+	}
+	if third {
+		again, _, _ := reDecode(log[0])
+		if err := c19Apply(d1, again, 1); err != nil {
+			viol("setup-failed", err.Error())
+			return
+		}
 	}
 	if x := c19XML(d1); x != p.m.xml || c19XML(d2) != p.m.xml {
 		viol("setup-failed", fmt.Sprintf("initial tree is %s, upstream's matrix says %s", x, p.m.xml))
@@ -439,7 +460,7 @@ func (w *c19Worker) runPair(res *runner.CaseResult, p c19Pair, order int) {
 	}
 	res.AddStat("pairs_run", 1)
 	first, second := d1, d2
-	if order == 1 {
+	if order&1 == 1 {
 		first, second = d2, d1
 	}
 	c1, err := push(first)
@@ -523,18 +544,72 @@ func (w *c19Worker) runPair(res *runner.CaseResult, p c19Pair, order int) {
 		viol("snapshot-fed-replica-differs", fmt.Sprintf("\n editors: %s\n replica fed by the snapshot: %s", x1, x4))
 		return
 	}
+	// a passive replica that loads a snapshot taken BETWEEN the two changes and then
+	// receives the second one (the decoded tree must behave like the original under it)
+	if len(log) < 3 {
+		// one of the two operations was a no-op (upstream's merge selector found no boundary)
+		res.AddStat("pairs_with_a_no_op_side", 1)
+		res.AddSet("matrices", p.m.name)
+		return
+	}
+	var d5 *document.Document
+	if err := func() (err error) {
+		defer func() {
+			if x := recover(); x != nil {
+				err = fmt.Errorf("PANIC: %v", x)
+			}
+		}()
+		mid := document.New(k)
+		mid.SetStatus(document.StatusAttached)
+		for i := 0; i < 2; i++ { // base + the first pusher's change
+			cs, _, err := reDecode(log[i])
+			if err != nil {
+				return err
+			}
+			if err := c19Apply(mid, cs, int64(i+1)); err != nil {
+				return err
+			}
+		}
+		b, err := converter.SnapshotToBytes(mid.RootObject(), mid.AllPresences())
+		if err != nil {
+			return err
+		}
+		idoc, err := document.NewInternalDocumentFromSnapshot(k, 2, mid.InternalDocument().Lamport(), mid.VersionVector(), b)
+		if err != nil {
+			return err
+		}
+		d5 = idoc.ToDocument()
+		d5.SetStatus(document.StatusAttached)
+		cs, _, err := reDecode(log[2])
+		if err != nil {
+			return err
+		}
+		return c19Apply(d5, cs, 3)
+	}(); err != nil {
+		viol("mid-snapshot-replica-failed", err.Error())
+		return
+	}
+	res.AddStat("replicas_compared", 1)
+	if x5 := c19XML(d5); x5 != x1 {
+		viol("mid-snapshot-replica-differs", fmt.Sprintf("\n editors: %s\n replica that loaded a snapshot between the two changes and then applied the second: %s", x1, x5))
+		return
+	}
+	if a, b := d5.Root().Marshal(), d5.Marshal(); a != b {
+		viol("clone-differs-from-root", fmt.Sprintf("on the mid-snapshot replica Root() shows %s, the document is %s", a, b))
+		return
+	}
 	res.AddSet("matrices", p.m.name)
 }
 
 func (w *c19Worker) Run(idx int) runner.CaseResult {
 	ps := c19Pairs()
-	p := ps[idx/2]
+	p := ps[idx/8]
 	res := runner.CaseResult{Case: fmt.Sprintf("c19-%d", idx)}
-	w.runPair(&res, p, idx%2)
-	res.Hash = fmt.Sprintf("%s/%d", p.name(), idx%2)
+	w.runPair(&res, p, idx%8)
+	res.Hash = fmt.Sprintf("%s/%d", p.name(), idx%8)
 	res.Nontrivial = true
 	if idx%397 == 0 {
-		b, _ := json.Marshal(map[string]any{"pair": p.name(), "order": idx % 2})
+		b, _ := json.Marshal(map[string]any{"pair": p.name(), "order": idx % 8})
 		res.Sample = b
 	}
 	return res
